@@ -283,3 +283,55 @@ func vNoLatchWriteHeld() bool {
 //
 //@ model column.Column.Index
 func vModelColumnIndex(c Column, chunk commit.Chunk) bitmap.Bitmap { return vNondet[bitmap.Bitmap]() }
+
+// bitmap.Max: the largest set bit, or (0, false) for an empty bitmap.
+//
+//@ model bitmap.(Bitmap).Max
+func vModelBitmapMax(dst bitmap.Bitmap) (uint32, bool) {
+	x := vNondet[uint32]()
+	ok := vNondet[bool]()
+	if !ok {
+		vAssume(vForall(0, len(dst), func(i int) bool { return dst[i] == 0 }))
+		return 0, false
+	}
+	vAssume(int(x>>6) < len(dst) && vBit(dst, x))
+	vAssume(vForall(0, len(dst)*64, func(j int) bool { return uint32(j) <= x || !vBit(dst, uint32(j)) }))
+	return x, true
+}
+
+// bitmap.resize only chooses a capacity (at least the requested length).
+//
+//@ model bitmap.resize
+func vModelBitmapResize(capacity, v int) int {
+	n := vNondet[int]()
+	vAssume(n >= v && n < 1<<40)
+	return n
+}
+
+// commit.Buffer.RangeChunks: calls fn with the block of one arbitrary header (every header is visited: assumed).
+//
+//@ model commit.(*Buffer).RangeChunks
+func vModelRangeChunks(b *commit.Buffer, fn func(chunk commit.Chunk)) {
+	if vNondet[bool]() {
+		fn(vNondet[commit.Chunk]())
+	}
+}
+
+// vLog is the ghost record of what reached a logger: how many commits, and the last one's id / block / latch state.
+var (
+	vLogCount   int
+	vLogLastID  uint64
+	vLogLastChk commit.Chunk
+)
+
+// vLogger is a commit.Logger used by contracts: it checks the emission protocol and records the commit.
+type vLogger struct{ owner *Collection }
+
+func (l *vLogger) Append(c commit.Commit) error {
+	vAssert("emit:inside-latch-of-its-block", vLatchW[uint(c.Chunk)%128])
+	vAssert("emit:id-is-stored-commit-id", int(c.Chunk) < len(l.owner.commits) && l.owner.commits[c.Chunk] == c.ID)
+	vAssert("emit:id-nonzero", c.ID != 0)
+	vLogCount++
+	vLogLastID, vLogLastChk = c.ID, c.Chunk
+	return nil
+}
